@@ -37,7 +37,7 @@ TReadFile == /\ IsEvent("readfile")
                 /\ Check(Ev.rc = r.rc, [rc |-> r.rc])
              /\ UNCHANGED fs
 TReadDirs == /\ IsEvent("readdirs")
-             /\ LET r == ReadDirsResult(fs, Ev.dirs, Ev.name, Ev.sfx, Ev.delim, Ev.comment) IN
+             /\ LET r == ReadDirsResultOpt(fs, Ev.dirs, Ev.name, Ev.sfx, Ev.delim, Ev.comment, Ev.python, Ev.join) IN
                 /\ objs' = [objs EXCEPT ![Ev.h] = r.obj]
                 /\ errloc' = IF r.errfile = <<>> THEN [errloc EXCEPT !.valid = FALSE] ELSE [file |-> r.errfile, line |-> r.errline, valid |-> r.rc # "ECONF_SUCCESS"]
                 /\ Check(Ev.rc = r.rc, [rc |-> r.rc])
